@@ -1,10 +1,8 @@
 package main
 
 import (
-	"fmt"
 	"go/token"
 	"go/types"
-	"sort"
 	"strings"
 
 	"golang.org/x/tools/go/ssa"
@@ -161,185 +159,6 @@ func sameParams(a, b *types.Signature) bool {
 		}
 	}
 	return true
-}
-
-// argsAreParams: call arguments (after skip) are exactly the function's own parameters in order.
-func argsAreParams(args []ssa.Value, params []*ssa.Parameter) bool {
-	if len(args) != len(params) {
-		return false
-	}
-	for i := range args {
-		if args[i] != ssa.Value(params[i]) {
-			return false
-		}
-	}
-	return true
-}
-
-func ruleAPIForms(c *Ctx) []Obligation {
-	o := c.newObs("P-API-FORMS")
-	sm := methodsOf(c, "Statement")
-	gm := methodsOf(c, "Group")
-	newStmt := c.role("newStatement")
-	var names []string
-	for n := range sm {
-		if !nonConstructs[n] {
-			names = append(names, n)
-		}
-	}
-	sort.Strings(names)
-	c.stats["constructs"] = len(names)
-	for _, n := range names {
-		s := sm[n]
-		sa := c.FA(s)
-		// ---- Statement form
-		{
-			fn := fname(s)
-			var stores []*ssa.Store
-			for _, b := range s.Blocks {
-				for _, in := range b.Instrs {
-					if st, ok := in.(*ssa.Store); ok {
-						if _, local := st.Addr.(*ssa.Alloc); local {
-							continue
-						}
-						if rootAlloc(st.Addr) != nil {
-							continue
-						}
-						stores = append(stores, st)
-					}
-				}
-			}
-			okStore := false
-			detail := ""
-			switch {
-			case len(stores) == 1 && stores[0].Addr == ssa.Value(s.Params[0]):
-				// *s = append(*s, ...)
-				if call, ok := stores[0].Val.(*ssa.Call); ok {
-					if bi, ok := call.Call.Value.(*ssa.Builtin); ok && bi.Name() == "append" {
-						if u, ok := call.Call.Args[0].(*ssa.UnOp); ok && u.X == ssa.Value(s.Params[0]) {
-							okStore = true
-						}
-					}
-				}
-				if !okStore {
-					detail = "the single store is not *s = append(*s, …): " + sa.Desc(stores[0].Val)
-				} else {
-					// it lies on every normal path
-					for _, r := range sa.returns() {
-						if !(stores[0].Block() == r.Block() || stores[0].Block().Dominates(r.Block())) {
-							okStore = false
-							detail = "the append does not happen on every path"
-						}
-					}
-				}
-			case len(stores) == 0:
-				// only allowed if the method hands the statement to a callback and nothing else (Do)
-				okStore = c.CG().Sum[s] != nil && c.CG().Sum[s].FuncVal
-				detail = "no store to the receiver"
-			default:
-				detail = fmt.Sprintf("%d stores to non-local memory", len(stores))
-			}
-			o.req(okStore, fn, "Statement form appends in place, once", s.Pos(), "%s", detail)
-			okRet := true
-			for _, r := range sa.returns() {
-				if len(r.Results) != 1 || r.Results[0] != ssa.Value(s.Params[0]) {
-					okRet = false
-				}
-			}
-			o.req(okRet, fn, "Statement form returns its receiver", s.Pos(), "chained calls must keep building the same statement")
-		}
-		// ---- function form
-		pf := c.jenFunc(n)
-		if pf == nil {
-			o.add(Violated, "jen."+n, "package-function form exists", s.Pos(), true, "construct %s has no package function", n)
-		} else {
-			fn := fname(pf)
-			fa := c.FA(pf)
-			okSig := pf.Signature.Params().Len() == s.Signature.Params().Len() && sameParams(pf.Signature, s.Signature)
-			calls := fa.callsTo(s)
-			okBody := len(calls) == 1 && len(pf.Blocks) == 1
-			if okBody {
-				args := calls[0].Common().Args
-				first, isCall := args[0].(*ssa.Call)
-				okBody = isCall && first.Call.StaticCallee() == newStmt && newStmt != nil && argsAreParams(args[1:], pf.Params)
-				for _, r := range fa.returns() {
-					if r.Results[0] != callValue(calls[0]) {
-						okBody = false
-					}
-				}
-			}
-			o.req(okSig && okBody, fn, "function form is the Statement method applied to a new statement with the same arguments", pf.Pos(), "signature match %v; body is `return newStatement().%s(params…)`: %v", okSig, n, okBody)
-		}
-		// ---- Group form
-		g := gm[n]
-		if g == nil {
-			o.add(Violated, "(*jen.Group)."+n, "Group form exists", s.Pos(), true, "construct %s has no *Group method", n)
-			continue
-		}
-		fn := fname(g)
-		ga := c.FA(g)
-		okSig := sameParams(g.Signature, s.Signature)
-		// the new statement: result of the function form (or the Statement form on a new statement) with the parameters in order
-		var built ssa.Value
-		for _, ci := range ga.calls() {
-			sc := ci.Common().StaticCallee()
-			if sc == nil {
-				continue
-			}
-			if pf != nil && sc == pf && argsAreParams(ci.Common().Args, g.Params[1:]) {
-				built = callValue(ci)
-			}
-			if sc == s && len(ci.Common().Args) > 0 {
-				if first, ok := ci.Common().Args[0].(*ssa.Call); ok && first.Call.StaticCallee() == newStmt && argsAreParams(ci.Common().Args[1:], g.Params[1:]) {
-					built = callValue(ci)
-				}
-			}
-		}
-		okBuilt := built != nil
-		// exactly one store: recv.items = append(recv.items, built)
-		var stores []*ssa.Store
-		for _, b := range g.Blocks {
-			for _, in := range b.Instrs {
-				if st, ok := in.(*ssa.Store); ok && rootAlloc(st.Addr) == nil {
-					stores = append(stores, st)
-				}
-			}
-		}
-		okApp := false
-		if len(stores) == 1 && ga.obj(stores[0].Addr) == "recv.items" && okBuilt {
-			if call, ok := stores[0].Val.(*ssa.Call); ok {
-				if bi, ok := call.Call.Value.(*ssa.Builtin); ok && bi.Name() == "append" && strings.HasPrefix(ga.Desc(call.Call.Args[0]), "recv.items") {
-					if va, ok := varargs(call.Call.Args[1]); ok && len(va) == 1 && stripConv(va[0]) == built {
-						okApp = true
-					}
-				}
-			}
-			for _, r := range ga.returns() {
-				if !(stores[0].Block() == r.Block() || stores[0].Block().Dominates(r.Block())) {
-					okApp = false
-				}
-			}
-		}
-		okRet := okBuilt
-		for _, r := range ga.returns() {
-			if len(r.Results) != 1 || r.Results[0] != built {
-				okRet = false
-			}
-		}
-		o.req(okSig && okBuilt, fn, "Group form builds the statement from the same arguments", g.Pos(), "signature match %v; statement built by the function form with the parameters in order: %v", okSig, okBuilt)
-		o.req(okApp, fn, "Group form appends the new statement to the group, once", g.Pos(), "expected exactly one store `g.items = append(g.items, s)` on every path (found %d stores)", len(stores))
-		o.req(okRet, fn, "Group form returns the new statement", g.Pos(), "")
-	}
-	// every Group method other than the non-constructs has a Statement twin
-	for n := range gm {
-		if nonConstructs[n] {
-			continue
-		}
-		if sm[n] == nil {
-			o.add(Violated, "(*jen.Group)."+n, "has a Statement form", gm[n].Pos(), true, "Group method without the corresponding Statement method")
-		}
-	}
-	return o.list
 }
 
 // ---------------------------------------------------------------------------------------------
